@@ -155,8 +155,8 @@ class T3TSilicon(object):
                 return None
             self.system = s
             extra = b""
-            if data[4] == 1:
-                extra = bytes([s >> 8, s & 255])
+            if data[4] == 1 or (data[4] == 0 and getattr(self, "always_rd", False)):
+                extra = bytes([s >> 8, s & 255])      # (always_rd: a card that appends request data nobody asked for)
             elif data[4] == 2:
                 extra = b"\x00\x83"
             return self._frame(0x01, self.pmm + extra)
